@@ -70,3 +70,13 @@ OBLIGATIONS += [
      "what": "sodium_base642bin for EVERY input text, capacity, ignore set and the four variants: memory safety, frame, *bin_len <= capacity and 0 on failure, end pointer inside the input",
      "bound": "values: text <= 8192 bytes, capacity <= 4096; every loop iteration covered by the invariants"},
 ]
+
+OBLIGATIONS.append({"name": "c15.u.hex2bin.strict", "props": ["C15", "C12"], "kind": "U", "tier": "quick", "src": "harness/codecs_du.c", "include": ["contracts/codecs_u.h"], "entry": "hu_hex2bin",
+     "mode": "dfcc", "probe": False, "min_props": 30, "solver": "kissat", "timeout": 900, "cbmc": ["--unwind", "24", "--object-bits", "12"],
+     "dfcc": {"enforce": ["sodium_hex2bin/sodium_hex2bin_strict_spec"], "replace": ["strchr"],
+              "loopspec": {"sodium_hex2bin": [{"id": 0, "dec": "hex_len - hex_pos",
+                  "assigns": "hex_pos,bin_pos,ret,c,c_acc,c_alpha0,c_alpha,c_num0,c_num,c_val,state,v_errno,__CPROVER_object_upto(bin,bin_maxlen)",
+                  "inv": 'hex_pos <= hex_len && bin_pos <= bin_maxlen && (state == 0 || state == 255) && ret == 0 && hex_pos == 2 * bin_pos + (state != 0 ? 1 : 0) && (g_k < hex_pos ==> ((hex[g_k] >= 48 && hex[g_k] <= 57) || (hex[g_k] >= 97 && hex[g_k] <= 102) || (hex[g_k] >= 65 && hex[g_k] <= 70))) && (g_m < bin_pos ==> bin[g_m] == (unsigned char)(16 * (hex[2 * g_m] >= 48 && hex[2 * g_m] <= 57 ? hex[2 * g_m] - 48 : (hex[2 * g_m] >= 97 && hex[2 * g_m] <= 102 ? hex[2 * g_m] - 87 : hex[2 * g_m] - 55)) + (hex[2 * g_m + 1] >= 48 && hex[2 * g_m + 1] <= 57 ? hex[2 * g_m + 1] - 48 : (hex[2 * g_m + 1] >= 97 && hex[2 * g_m + 1] <= 102 ? hex[2 * g_m + 1] - 87 : hex[2 * g_m + 1] - 55)))) && (state != 0 ==> c_acc == (unsigned char)(16 * (hex[hex_pos - 1] >= 48 && hex[hex_pos - 1] <= 57 ? hex[hex_pos - 1] - 48 : (hex[hex_pos - 1] >= 97 && hex[hex_pos - 1] <= 102 ? hex[hex_pos - 1] - 87 : hex[hex_pos - 1] - 55))))'}]}},
+     "functions": ["sodium_hex2bin"], "assumes": ["errno modelled as a plain global"],
+     "what": "sodium_hex2bin, strict mode (no ignore set, no end pointer), EVERY text: success implies an even number of hex digits only, bin_len = hex_len/2, every byte = value of its digit pair (constant-time digit classification proved equal to the character ranges)",
+     "bound": "values: text <= 8192 bytes, capacity <= 4096; every loop iteration covered by the invariant"})
